@@ -19,6 +19,7 @@ func main() {
 		Corpus:    corpus,
 		VM:        true,
 		Isolate:   true,
+		Extra:     boundaryCases,
 	})
 }
 
